@@ -1,5 +1,6 @@
 import Bxh.Model.Chain
 import Bxh.Proofs.ChainRollback
+import Bxh.Proofs.ChainLinked
 /-!
 # C09 — the stored chain is hash-linked and every index agrees with the executed blocks
 Theorems about `persist` and the getters of `Bxh.Chain` (model of `PersistExecutionResult`,
@@ -125,6 +126,74 @@ theorem C09_ledger_rollback_clears_above_target (n n' : Node) (t : Nat) (hb : n.
   · cases h
   · rename_i st' _
     exact C09_rollback_clears_above_target { n with st := st' } n' t hb ht h
+
+-- ------------------------------------------------------------------------------------ over whole histories
+
+/-- what `Linked` means for the getters: on a linked chain EVERY committed height `h` (not only the head) holds a block of
+height `h` that both read modes return, that the height → hash index and the hash → block lookup agree on, whose parent hash is
+the hash of the block stored at `h - 1` (the zero hash for the first block), and the chain meta names the hash of the head -/
+theorem C09_every_height_linked_and_indexed (n : Node) (hL : Linked n) (h : Nat) (h1 : 1 ≤ h) (h2 : h ≤ n.cmeta.1) :
+    ∃ b, getBlock n h false = some b ∧ getBlock n h true = some b ∧ b.height = h ∧
+      getBlockHash n h = some b.hash ∧ getByHash n b.hash = some b ∧ getTxCount n h = some b.txs.length ∧
+      (h = 1 → b.parent = "zero") ∧
+      (2 ≤ h → ∃ p, getBlock n (h - 1) false = some p ∧ b.parent = p.hash) ∧
+      (h = n.cmeta.1 → n.cmeta.2.1 = b.hash) := by
+  obtain ⟨b, c1, c2, c3, c4, c5, c6, c7⟩ := hL.to.byHeight h h1 h2
+  have h0 : ¬ h = 0 := by omega
+  have g1 : getBlock n h false = some b := by
+    simp only [getBlock, h0, if_false, c1, c7, Bool.false_eq_true, Option.map_some]
+  have g2 : getBlock n h true = some b := by
+    simp only [getBlock, h0, if_false, c1, c2, if_true, Option.map_some]
+  refine ⟨b, g1, g2, c4, c5, ?_, ?_, ?_, ?_, ?_⟩
+  · simp only [getByHash, c6, Option.bind_some]; exact g1
+  · simp [getTxCount, c7]
+  · intro e; subst e; exact hL.to.first b c1
+  · intro h3
+    obtain ⟨p, d1, d2, d3, d4, d5, d6, d7⟩ := hL.to.byHeight (h - 1) (by omega) (by omega)
+    have h0' : ¬ h - 1 = 0 := by omega
+    refine ⟨p, ?_, ?_⟩
+    · simp only [getBlock, h0', if_false, d1, d7, Bool.false_eq_true, Option.map_some]
+    · apply hL.to.link (h - 2) b p
+      · have : h - 2 + 1 = h - 1 := by omega
+        rw [this]; exact c1
+      · have : h - 2 = h - 1 - 1 := by omega
+        rw [this]; exact d1
+  · intro e; subst e; exact hL.head b c1 h1
+
+/-- a transaction found by its hash is where the index says: the stored position names a committed height, the hash of the block
+stored there, and an index at which that block's transaction list holds this very transaction (no dangling entry, also after rollbacks) -/
+theorem C09_tx_lookup_agrees (n : Node) (hL : Linked n) (t : String) (h : Nat) (hs : String) (i : Nat)
+    (hm : getTxMeta n t = some (h, hs, i)) :
+    1 ≤ h ∧ h ≤ n.cmeta.1 ∧ getTx n t = some (some t) ∧ ∃ b, getBlock n h true = some b ∧ b.hash = hs ∧ b.txs[i]? = some t := by
+  obtain ⟨a1, a2, b, a3, a4, a5⟩ := hL.to.txMeta t h hs i hm
+  obtain ⟨b', c1, c2, _⟩ := hL.to.byHeight h a1 a2
+  rw [a3] at c2
+  injection c2 with c2
+  subst c2
+  have h0 : ¬ h = 0 := by omega
+  refine ⟨a1, a2, ?_, b, ?_, a4, a5⟩
+  · unfold getTxMeta at hm
+    simp only [getTx, hm, h0, if_false, a3, a5]
+  · simp only [getBlock, h0, if_false, c1, a3, if_true, Option.map_some]
+
+/-- **over every history**: whatever sequence of blocks a node persisted (each with a hash that is not the hash of a block it
+stores — no collision among the stored block hashes) and whatever rollbacks it went through in between, its chain is `Linked`;
+with the two theorems above: every committed height is hash-linked to the one below and found by every lookup, every transaction
+entry points into a committed block that contains it, and nothing is indexed above the head -/
+theorem C09_history_chain_linked (n : Node) (h : Reach n) : Linked n := reach_linked n h
+
+/-- … in particular nothing above the head is found by height, after any history -/
+theorem C09_history_nothing_above_head (n : Node) (h : Reach n) (j : Nat) (hj : n.cmeta.1 < j) :
+    getBlock n j false = none ∧ getBlock n j true = none := by
+  have hL := (reach_linked n h).to
+  have hb : n.tbl.bodies[j - 1]? = none := List.getElem?_eq_none (by rw [hL.lenB]; omega)
+  have h0 : ¬ j = 0 := by omega
+  constructor <;> simp [getBlock, h0, hb]
+
+/-- non-vacuity: two blocks persisted on the empty node, a rollback to height 1, another block: a reachable node -/
+example : ∃ n1 b1 n2 b2 n3 n4 b4, persist {} ["t1"] [] = some (n1, b1) ∧ persist n1 ["t2", "t3"] [("c1", 2)] = some (n2, b2) ∧
+    rollback n2 1 = .ok n3 ∧ persist n3 ["t4"] [] = some (n4, b4) ∧ n4.cmeta.1 = 2 ∧ b4.parent = b1.hash := by
+  refine ⟨_, _, _, _, _, _, _, rfl, rfl, rfl, rfl, rfl, rfl⟩
 
 -- non-vacuity: a node with two blocks rolled back to height 1
 section Example
